@@ -22,7 +22,7 @@ def cases(tier, seed):
                     if cls == 'mpo' and (d > 3 or L > 4 and d > 2):
                         continue
                     for qstyle in gen.QSTYLES:
-                        for entries in ('complex', 'real', 'int'):
+                        for entries in ('complex', 'real', 'int', 'mixed'):
                             for bstyle in ('random', 'one', 'max'):
                                 if bstyle != 'random' and entries != 'complex':
                                     continue
